@@ -109,10 +109,14 @@ impl<T: std::fmt::Debug> std::fmt::Debug for Mutex<T> {
 pub struct Condvar {
     inner: imp::Condvar,
     id: u64,
+    silent: bool,
 }
 
 impl Condvar {
-    pub fn new() -> Condvar { Condvar { inner: imp::Condvar::new(), id: next_id("C") } }
+    pub fn new() -> Condvar { Condvar { inner: imp::Condvar::new(), id: next_id("C"), silent: false } }
+
+    /// A condition variable that writes nothing to the trace (for the harness's own waiting).
+    pub fn new_silent() -> Condvar { Condvar { inner: imp::Condvar::new(), id: u64::MAX, silent: true } }
 
     pub fn verif_name(&self) -> String { format!("C{}", self.id) }
 
@@ -121,17 +125,17 @@ impl Condvar {
         guard.log_cs();
         let g = guard.g.take().expect("guard");
         drop(guard);
-        emit(&format!("wait C{}", self.id));
+        if !self.silent { emit(&format!("wait C{}", self.id)); }
         let r = self.inner.wait(g);
-        emit(&format!("woke C{}", self.id));
+        if !self.silent { emit(&format!("woke C{}", self.id)); }
         match r {
             Ok(g) => Ok(m.wrap(g)),
             Err(p) => Err(PoisonError::new(m.wrap(p.into_inner()))),
         }
     }
 
-    pub fn notify_one(&self) { emit(&format!("notify1 C{}", self.id)); self.inner.notify_one(); }
-    pub fn notify_all(&self) { emit(&format!("notifyall C{}", self.id)); self.inner.notify_all(); }
+    pub fn notify_one(&self) { if !self.silent { emit(&format!("notify1 C{}", self.id)); } self.inner.notify_one(); }
+    pub fn notify_all(&self) { if !self.silent { emit(&format!("notifyall C{}", self.id)); } self.inner.notify_all(); }
 }
 
 impl Default for Condvar { fn default() -> Self { Condvar::new() } }
